@@ -42,12 +42,13 @@ TRUSTED = ["translator harness/translate/g4_c07_constants.py (Python ast -> cons
            "numpy/torch eigvalsh only for the float screening; the verdict on sampled matrices is the exact certificate",
            "modelled not verified: torch / linear_operator primitives (Cholesky, solves, DiagLinearOperator.diagonal)"]
 ASSUMPTIONS = ["float64 only (torch default dtype set to float64 by the harness, so GreaterThan(1e-4).lower_bound is the float64 1e-4)",
-               "positive definiteness of the Matern (nu = 1/2 in d > 1, nu = 3/2, 5/2), piecewise-polynomial and Hamming-IMQ "
-               "covariance FUNCTIONS, of the cylindrical radial factor with such a base kernel, and of the derivative kernels "
-               "(RBFKernelGrad, RBFKernelGradGrad, Matern52KernelGrad, PolynomialKernelGrad) is NOT proved (gram_psd_partial): "
-               "observed numerically and certified exactly per sampled float64 matrix only (counter gram_cells_family_observed_only); "
-               "RBF, RQ, Matern-1/2 (d = 1), cosine (d = 1), periodic, spectral mixture, linear, polynomial, constant, index, "
-               "multitask/LCM structure, cylindrical (PSD radial factor), scale, sums and products ARE theorems for all sizes",
+               "positive definiteness of the Matern covariance FUNCTIONS in input dimension d > 1 (nu = 1/2, 3/2, 5/2), of the "
+               "piecewise-polynomial functions (q >= 1; q = 0 in d > 1) and of the derivative kernels (RBFKernelGrad, RBFKernelGradGrad, "
+               "Matern52KernelGrad, PolynomialKernelGrad) is NOT proved (gram_psd_partial): observed numerically and certified exactly per "
+               "sampled float64 matrix only (counter gram_cells_family_observed_only); RBF, RQ, Matern-1/2, -3/2, -5/2 in d = 1, the triangle "
+               "kernel (piecewise q = 0, d = 1), Hamming-IMQ, cosine (d = 1), periodic, spectral mixture, linear, polynomial, constant, "
+               "index, multitask/LCM structure, cylindrical (radial factor on 1-d radii: RBF, RQ, Matern), scale, sums and products ARE "
+               "theorems for all sizes",
                "kernels not examined: ArcKernel, GaussianSymmetrizedKLKernel/DistributionalInputKernel (not PD in general), "
                "MultiDeviceKernel, keops kernels, GridKernel / GridInterpolationKernel, InducingPointKernel (Gram part)",
                "FixedGaussianNoise: a call-time `noise=` tensor is used as given (no constraint object exists for it)",
@@ -286,21 +287,31 @@ PROVED_FAMILIES = {
     "constant": "gram_constant_psd", "rff": "gram_linear_psd (feature map Z Z^T)", "spectral_delta": "gram_linear_psd (feature map)",
     "scale_rbf": "gram_scale_psd + gram_rbf_psd", "index": "gram_index_psd", "multitask": "gram_kronecker_psd + gram_rbf_psd + gram_index_psd",
     "newton_girard": "gram_sum_psd / gram_finite_product_psd over 1-d gram_rbf_psd", "additive_structure": "gram_sum_psd + gram_rbf_psd",
-    "product_structure": "gram_finite_product_psd + gram_rbf_psd", "cylindrical[rbf]": "gram_cylindrical_psd + gram_rbf_psd"}
+    "product_structure": "gram_finite_product_psd + gram_rbf_psd", "cylindrical[rbf]": "gram_cylindrical_psd + gram_rbf_psd",
+    # wave 3
+    "hamming": "gram_hamming_imq_psd (any sequence length / vocabulary, alpha, beta > 0)",
+    "cylindrical[matern2.5]": "gram_cylindrical_psd + gram_matern52_1d_psd (the radial factor acts on the one-dimensional radii kuma(r))",
+    "matern[d=1]": "gram_matern12_1d_psd / gram_matern32_1d_psd / gram_matern52_1d_psd (input dimension one only)",
+    "piecewise[q=0,d=1]": "gram_piecewise_q0_1d_psd (triangle kernel; input dimension one only)",
+    "sum[d=1]": "gram_sum_psd + gram_rbf_psd + gram_matern32_1d_psd + gram_linear_psd (input dimension one only)",
+    "lcm[d=1]": "gram_lcm_psd / gram_kronecker_psd + gram_rbf_psd + gram_matern32_1d_psd + gram_index_psd (input dimension one only)",
+    "product[d=1]": "gram_product_psd + gram_rbf_psd + gram_matern12_1d_psd + gram_polynomial_psd (input dimension one only)"}
 # ... and only OBSERVED (float screening + exact per-matrix certificate) for these:
 OBSERVED_ONLY = {
-    "matern": "Matern nu in {1/2, 3/2, 5/2} in d >= 1 (nu = 1/2, d = 1 is gram_matern12_1d_psd)", "piecewise": "PiecewisePolynomialKernel",
-    "hamming": "HammingIMQKernel", "rbf_grad": "RBFKernelGrad", "rbf_gradgrad": "RBFKernelGradGrad", "matern52_grad": "Matern52KernelGrad",
-    "polynomial_grad": "PolynomialKernelGrad", "sum": "contains Matern-3/2", "product": "contains Matern-1/2 (d > 1)",
-    "lcm": "contains Matern-3/2", "cylindrical[matern2.5]": "radial factor Matern-5/2"}
+    "matern[d>1]": "Matern nu in {1/2, 3/2, 5/2} in input dimension d > 1 (d = 1: theorems)",
+    "piecewise": "PiecewisePolynomialKernel q >= 1 in any dimension, q = 0 in d > 1 (q = 0, d = 1: gram_piecewise_q0_1d_psd)",
+    "rbf_grad": "RBFKernelGrad", "rbf_gradgrad": "RBFKernelGradGrad", "matern52_grad": "Matern52KernelGrad",
+    "polynomial_grad": "PolynomialKernelGrad", "sum[d>1]": "contains Matern-3/2 (d > 1)", "product[d>1]": "contains Matern-1/2 (d > 1)",
+    "lcm[d>1]": "contains Matern-3/2 (d > 1)"}
 
 
-def proof_class(fam, hp):
-    key = f"{fam}[{hp['base'].replace('matern2.5', 'matern2.5')}]" if fam == "cylindrical" else fam
+def proof_class(fam, hp, d=None):
+    """'theorem' when PSD of this family's Gram matrix at input dimension d is a theorem of Props/C07.lean"""
+    key = f"{fam}[{hp['base']}]" if fam == "cylindrical" else fam
     if key in PROVED_FAMILIES:
         return "theorem"
-    if fam == "matern" and hp.get("nu") == 0.5:
-        return "observed (theorem for d = 1)"
+    if d == 1 and (fam in ("matern", "sum", "lcm", "product") or (fam == "piecewise" and hp.get("q") == 0)):
+        return "theorem"
     return "observed"
 
 
@@ -326,7 +337,8 @@ def build_kernel(fam, hp, d):
     elif fam == "rq":
         k = K.RQKernel(ard_num_dims=ard); k.lengthscale = _ls(hp, d); k.alpha = hp["alpha"]
     elif fam == "periodic":
-        k = K.PeriodicKernel(ard_num_dims=ard); k.lengthscale = _ls(hp, d)
+        k = K.PeriodicKernel(ard_num_dims=ard) if ard else K.PeriodicKernel()
+        k.lengthscale = _ls(hp, d)
         k.period_length = hp["p"] if not ard else _ls({"l": hp["p"], "ard": True}, d) * 1.3
     elif fam == "cosine":
         k = K.CosineKernel(); k.period_length = hp["p"]
@@ -454,7 +466,7 @@ def prep_input(fam, X, d):
     return X
 
 
-def gram(fam, hp, Xk, d, mode="plain"):
+def gram(fam, hp, Xk, d, mode="plain", lazy_diag=True):
     """mode: 'plain' k(X); 'clone' k(X, X.clone()) (equal values, different tensor); 'trace' under settings.trace_mode"""
     import torch
     import gpytorch
@@ -473,7 +485,7 @@ def gram(fam, hp, Xk, d, mode="plain"):
             Kd = Kd if torch.is_tensor(Kd) else Kd.to_dense()
         except Exception:
             Kd = None
-        if Kd is not None and mode == "plain":
+        if Kd is not None and mode == "plain" and lazy_diag:
             try:        # the other diag-mode path: the diagonal of the LAZILY evaluated kernel tensor
                 Kl = k(Xk).diagonal(dim1=-1, dim2=-2)
                 Kd = [("K(x,x,diag=True)", Kd), ("lazy K(x,x).diagonal()", Kl)]
@@ -537,6 +549,7 @@ def gram_cases(ctx, drv, tier):
     fam_count, geom_count, cert_sent = {}, {}, 0
     worst = {}
     pending = []
+    n_cell = 0
     cells = [(n, d, False) for (n, d) in sizes] + [(n, d, True) for (n, d) in (MULTI_OUT_SIZES if tier == "quick" else MULTI_OUT_SIZES + [(5, 2), (2, 3)])]
     for rep in range(reps):
         for (n, d, multi_only) in cells:
@@ -558,7 +571,8 @@ def gram_cases(ctx, drv, tier):
                         u = rng.random()
                         mode = "clone" if u < 0.12 else ("trace" if u < 0.2 and fam in ("rbf", "matern", "rq", "scale_rbf", "sum", "product") else "plain")
                     try:
-                        K, Kd, cls = gram(fam, hp, Xk, d, mode)
+                        n_cell += 1
+                        K, Kd, cls = gram(fam, hp, Xk, d, mode, lazy_diag=bool(hp.get("ard")) or out_per_input(fam, d) > 1 or n_cell % 4 == 0)
                     except Exception as e:
                         ctx.broke("correspondence", f"kernel-eval:{fam}", f"{fam} {hp} {gname} n={n} d={d}: {type(e).__name__}: {e}"[:500])
                         continue
@@ -571,7 +585,7 @@ def gram_cases(ctx, drv, tier):
                              sample={"kind": "gram", "kernel": cls, "hp": hp, "geometry": gname, "n": n, "d": d,
                                      "rel_min_eig": info.get("rel_min_eig")})
                     fam_count[fam] = fam_count.get(fam, 0) + 1
-                    pc = "theorem" if (proof_class(fam, hp) == "theorem" or (fam == "matern" and hp.get("nu") == 0.5 and d == 1)) else "observed_only"
+                    pc = "theorem" if proof_class(fam, hp, d) == "theorem" else "observed_only"
                     ctx.count("gram_cells_family_" + pc)
                     ar = info.get("asym_rel", 0.0)
                     ctx.count("gram_symmetric_bitwise" if ar == 0 else ("gram_symmetric_1e-15" if ar <= SYM_EXACT else "gram_symmetric_rounding_level"))
@@ -717,7 +731,7 @@ def dense_cases(ctx, drv, tier):
                 ctx.case(desc, sample={"kind": "gram-dense", "kernel": cls, "hp": hp, "geometry": gname, "n": X.shape[0], "d": d,
                                        "rel_min_eig": info.get("rel_min_eig")})
                 nfam[fam] = nfam.get(fam, 0) + 1
-                pc = "theorem" if proof_class(fam, hp) == "theorem" else "observed_only"
+                pc = "theorem" if proof_class(fam, hp, d) == "theorem" else "observed_only"
                 ctx.count("gram_cells_family_" + pc)
                 if not symptoms:
                     continue
@@ -2171,6 +2185,7 @@ def correspondence(ctx, want_driver=True):
     section("accessor_histories_py", lambda: W3().accessor_cases(ctx, drv, ctx.tier))
     section("ard_derivative_gp_py", lambda: W3().deriv_gp_cases(ctx, drv, ctx.tier))
     section("variational_strategies_py", lambda: W3().vstrat_cases(ctx, drv, ctx.tier))
+    section("ovc_fantasy_py", lambda: W3().ovc_cases(ctx, drv, ctx.tier))
     section("dense_py", lambda: dense_cases(ctx, drv, ctx.tier))
     section("gram", lambda: gram_cases(ctx, drv, ctx.tier))
     drv.flush()
@@ -2258,6 +2273,8 @@ def replay(ctx, payload):
         return not W3().run_deriv_gp(ctx, None, case, want_driver=False)
     if kind == "vstrat":
         return not W3().run_vstrat(ctx, None, case, want_driver=False)
+    if kind == "ovc":
+        return not W3().run_ovc(ctx, None, case, want_driver=False)
     if kind == "variance":
         diag = [float(Fraction(x)) for x in case["diag"]]
         fails, _ = run_variance(ctx, None, diag, case.get("min_variance_double"), case["container"], want_driver=False)
